@@ -31,9 +31,12 @@ var Deny = map[string]string{
 	"tlb.HashMapAugExtraList": "generic helper",
 	"tlb.BlockchainConfig":    "Go-side view of ConfigParams built by ConvertBlockchainConfig, not a TL-B codec type",
 	"tlb.ShardDescription": "convenience struct filled by hand", "tlb.ValidatorSetsCommon": "projection helper",
+	"wallet.Message": "Sendable helper (amount/address/body), converted by ToInternal; not a cell layout",
+	"wallet.SimpleTransfer": "Sendable helper", "wallet.RawMessage": "pair of cell and mode handed to the wallet, not a cell layout",
 	"wallet.Wallet": "client object", "wallet.Version": "enum of wallet versions (int)", "wallet.Options": "options", "wallet.Option": "options",
 	"wallet.SimpleMockBlockchain": "mock", "wallet.Sendable": "interface", "wallet.MessageConfig": "options",
-	"wallet.DataV1V2": "initial-data layout helper", "wallet.MessageMode": "uint8 alias used as argument",
+	"wallet.ContractDeploy": "Sendable helper", "wallet.NextMsgParams": "helper", "wallet.MessageConfigV5": "options", "wallet.V5MsgType": "enum (int)",
+	"wallet.MessageMode": "uint8 alias used as argument",
 	"abi.ContractInterface": "enum", "abi.MethodInvocationResult": "result holder", "abi.ContractDescription": "inspection result",
 	"abi.MethodDescription": "inspection result", "abi.InterfaceDescription": "inspection result", "abi.InvokeFn": "func", "abi.Executor": "interface",
 	"abi.MsgOpName": "string alias", "abi.MsgOpCode": "uint32 alias", "abi.JettonOpName": "string alias", "abi.JettonOpCode": "uint32 alias",
@@ -67,7 +70,6 @@ func init() {
 	inst[tlb.MerkleProof[tlb.ShardStateUnsplit]]("tlb.MerkleProof[ShardStateUnsplit]")
 	inst[tlb.MerkleUpdate[tlb.ShardState]]("tlb.MerkleUpdate[ShardState]")
 	inst[boc.Cell]("boc.Cell")
-	inst[boc.BitString]("boc.BitString")
 }
 
 // Types returns the registry sorted by name, deny-listed entries removed.
